@@ -272,13 +272,13 @@ NOT_YET = {
 
 ENGINES = [
     {"name": "nsec", "path": "spec/Nsec.tla", "serves_properties": ["C08", "C09"],
-     "kind_free_text": "TLA+ spec (DnsNames, NsecOps, Nsec, NsecScopes, Nsec3Ops, Nsec3, Nsec3Scopes, MC_/Gen_/Trace_Nsec, MC_/Gen_/Trace_Nsec3) + harness/src/bin/drive_nsec, drive_nsec3"},
+     "kind_free_text": "TLA+ spec (DnsNames, NsecOps, Nsec, NsecScopes, Nsec3Ops, Nsec3, Nsec3Scopes, MC_/Gen_/Trace_Nsec, MC_/Gen_/Trace_Nsec3) + harness/src/bin/drive_nsec, drive_nsec3 (verify_nsec / verify_nsec3 through hook H1, served worlds end to end, published-chain audit)"},
     {"name": "pool", "path": "spec/Pool.tla", "serves_properties": ["C18"],
-     "kind_free_text": "TLA+ spec (PoolOps, Pool, MC_/Gen_/Trace_Pool) + harness/src/bin/drive_pool.rs"},
+     "kind_free_text": "TLA+ spec (PoolOps, Pool, MC_/Gen_/Trace_Pool) + harness/src/bin/drive_pool/ (connection level: scripted ConnectionProvider; socket level: scripted RuntimeProvider under the real ConnectionProvider, DnsExchange, DnsMultiplexer, TcpClientStream, UdpClientStream)"},
     {"name": "recursor", "path": "spec/Recursor.tla", "serves_properties": ["C19"],
-     "kind_free_text": "TLA+ spec (RecursorOps, Recursor, RecursorNets, MC_/Gen_/Trace_Recursor) + harness/src/bin/drive_recursor.rs"},
+     "kind_free_text": "TLA+ spec (RecursorOps, Recursor, RecursorNets, AccessOps, Gen_Access, MC_/Gen_/Trace_Recursor) + harness/src/bin/drive_recursor.rs (recursor over simulated internets, stub alias chasing, AccessControlSet replay)"},
     {"name": "chain", "path": "spec/Chain.tla", "serves_properties": ["C07"],
-     "kind_free_text": "TLA+ spec (ChainOps, Chain, MC_/Gen_/Trace_Chain) + harness/src/bin/drive_chain.rs"},
+     "kind_free_text": "TLA+ spec (ChainOps, Chain, MC_/Gen_/Trace_Chain) + harness/src/bin/drive_chain.rs (real signed zones + fault layer + DnssecDnsHandle; delivery modes raw / pool / upper-case / twice)"},
     {"name": "zonefile", "path": "spec/ZoneFile.tla", "serves_properties": ["C20"],
      "kind_free_text": "TLA+ spec (ZoneLex, ZoneFile, ZonePrinter, MC_/Gen_ZoneLex, MC_/Gen_/Trace_ZoneFile) + harness/src/bin/drive_zone.rs"},
     {"name": "mux", "path": "spec/Mux.tla", "serves_properties": ["C16"],
@@ -294,17 +294,17 @@ ENGINES = [
     {"name": "auth", "path": "spec/AuthServer.tla", "serves_properties": ["C10"],
      "kind_free_text": "TLA+ spec (AuthNames, AuthAnswer, AuthAsIs, AuthZones, AuthServer, MC_/Gen_/Trace_AuthServer) + harness/src/bin/drive_auth.rs"},
     {"name": "front", "path": "spec/FrontDoor.tla", "serves_properties": ["C11"],
-     "kind_free_text": "TLA+ spec (FrontDoorReq, FrontDoor, MC_/Gen_/Trace_FrontDoor) + harness/src/bin/drive_front.rs"},
+     "kind_free_text": "TLA+ spec (FrontDoorReq, FrontDoor, MC_/Gen_/Trace_FrontDoor, Serving, MC_Serving, Trace_Serving, ZoneLock, MC_ZoneLock) + harness/src/bin/drive_front.rs (in-process through hook H4 and a live stage: the real Server on loopback UDP/TCP with canary queries)"},
     {"name": "names", "path": "spec/NameOps.tla", "serves_properties": ["C04"],
      "kind_free_text": "TLA+ spec (DnsNames, NameLaws, NameOps, Gen_NamePairs, Gen_NameOps, Trace_Names) + harness/src/bin/drive_names.rs"},
     {"name": "tsig", "path": "spec/Tsig.tla", "serves_properties": ["C13"],
-     "kind_free_text": "TLA+ spec (TsigOps, Tsig, MC_/Gen_/Trace_Tsig) + harness/src/bin/drive_tsig.rs"},
+     "kind_free_text": "TLA+ spec (TsigOps, Tsig, MC_/Gen_/Trace_Tsig) + harness/src/bin/drive_tsig.rs + the mux-tsig / udp-tsig modes of harness/src/bin/drive_c16/"},
     {"name": "encoder", "path": "spec/Encoder.tla", "serves_properties": ["C03"],
-     "kind_free_text": "TLA+ spec (EncoderOps, Encoder, MC_/Gen_/Trace_Encoder) + harness/src/bin/drive_encoder.rs"},
+     "kind_free_text": "TLA+ spec (EncoderOps, Encoder, MC_/Gen_/Trace_Encoder) + harness/src/bin/drive_encoder.rs (proto encoder, and the server path through hook H4 incl. a handler that sets TC itself)"},
     {"name": "cache", "path": "spec/Cache.tla", "serves_properties": ["C15"],
-     "kind_free_text": "TLA+ spec (CacheOps, Cache, MC_/Gen_/Trace_Cache) + harness/src/bin/drive_cache.rs"},
+     "kind_free_text": "TLA+ spec (CacheOps, Cache, MC_/Gen_/Trace_Cache, Trace_LookupTtl) + harness/src/bin/drive_cache.rs (ResponseCache, CachingClient through hook H6) + the ttl mode of harness/src/bin/drive_stub.rs (Resolver API)"},
     {"name": "tcp", "path": "spec/TcpFraming.tla", "serves_properties": ["C17"],
-     "kind_free_text": "TLA+ spec (Framing, TcpFraming, MC_/Gen_/Trace_TcpFraming) + harness/src/bin/drive_tcp.rs"},
+     "kind_free_text": "TLA+ spec (Framing, TcpFraming, MC_/Gen_/Trace_TcpFraming, IdleTimer, MC_IdleTimer, Trace_IdleTimer) + harness/src/bin/drive_tcp.rs (bare TcpStream, TcpClientStream, TimeoutStream with virtual time, io adapters)"},
 ]
 
 
